@@ -110,6 +110,27 @@ def filter_table(ctx, scratch):
     for i, fn in enumerate(files):
         if i % ctx.nshards == ctx.shard and (i // ctx.nshards) % stride == ctx.seed % stride:
             one(fn, "library-file")
+    if ctx.tier == "thorough":
+        # real code objects: compile (never import) each library file and walk co_consts
+        import types as _t
+        ncode = 0
+        for i, fn in enumerate(files):
+            if i % ctx.nshards != ctx.shard:
+                continue
+            try:
+                with open(fn, "rb") as fh:
+                    top = compile(fh.read(), fn, "exec", dont_inherit=True)
+            except (SyntaxError, ValueError, OSError, RecursionError):
+                continue
+            stack = [top]
+            while stack:
+                c = stack.pop()
+                ncode += 1
+                if default_code_filter(c):
+                    ctx.fail("C17/default-filter-wrong:library-code-object", ["FILE", "real-code-object", fn], f"admitted real code object {c.co_name} of {fn}", raise_=False)
+                    break
+                stack.extend(k_ for k_ in c.co_consts if isinstance(k_, _t.CodeType))
+        ctx.extra["real_library_code_objects"] = ncode
     if ctx.shard == 0:
         for fn in record_files():
             one(fn, "distribution-RECORD-file", expected=False)
